@@ -230,6 +230,88 @@ func runC12(c *Ctx) {
 		}
 	}
 
+	// ---- R8 null for an interface parameter; per-provider lists are consulted
+	c.rule("C12-R8", "GRD: a GlyphLang null becomes the typed zero of the parameter only where a nil value is a value of that parameter: in CallMethod, from the taken edge of `Kind() == reflect.Interface` the reflect.Zero is reached only through a test of the parameter type's NumMethod() (the empty interface takes nil; a Context, an io.Reader or any interface with methods does not - the callee calls a method on it at once and panics, possibly while holding a lock of a library: `q.get(null)` wedges the connection pool). WCS: the per-provider allow-lists (providerMethods, with RegisterProviderMethods for custom providers) are read on the dispatch path: by a function reachable from CallMethod, HasMethod or the evaluator's method-call paths")
+	if cm := c.mustFn("C12-R8", interpPkg, "CallMethod"); cm != nil {
+		isNumMethodIf := func(x ssa.Instruction) bool {
+			iff, ok := x.(*ssa.If)
+			return ok && derivesFrom(iff.Cond, func(v ssa.Value) bool {
+				cl, ok := v.(*ssa.Call)
+				return ok && cl.Call.IsInvoke() && cl.Call.Method.Name() == "NumMethod"
+			})
+		}
+		isZero := func(x ssa.Instruction) bool { return isCallTo(x, "reflect.Zero") }
+		n := 0
+		for _, b := range cm.Blocks {
+			iff := ifOf(b)
+			if iff == nil {
+				continue
+			}
+			bo, ok := iff.Cond.(*ssa.BinOp)
+			if !ok || bo.Op != token.EQL {
+				continue
+			}
+			isKind := func(v ssa.Value) bool {
+				cl, ok := v.(*ssa.Call)
+				return ok && cl.Call.IsInvoke() && cl.Call.Method.Name() == "Kind"
+			}
+			var k int64
+			var okK bool
+			switch {
+			case isKind(bo.X):
+				k, okK = constInt(bo.Y)
+			case isKind(bo.Y):
+				k, okK = constInt(bo.X)
+			}
+			if !okK || k != 20 /* reflect.Interface */ {
+				continue
+			}
+			n++
+			q := &pathQuery{fn: cm, stop: isNumMethodIf, target: isZero}
+			hit, path := q.from(b.Succs[0], 0)
+			c.ob("C12-R8", interpPkg+".CallMethod#null-for-an-interface-parameter-only-if-it-has-no-methods", bo.Pos(), hit == nil, "a null argument is turned into the nil value of any interface-typed parameter: a provider method that takes a context.Context (or any interface with methods) is called with nil and panics inside the callee - `db.users.where(...).get(null)` dereferences the nil context while database/sql holds its pool mutex, the panic leaves ExecuteRoute and every later query blocks for ever", c.blockPath(path)...)
+		}
+		c.ob("C12-R8", interpPkg+".CallMethod#kind-test-for-null-arguments", cm.Pos(), n > 0, "CallMethod no longer distinguishes interface parameters when it meets a null argument: the rule cannot see where nil values are made")
+	}
+	{
+		// readers of providerMethods
+		var readers []*ssa.Function
+		for _, fn := range c.srcFuncs(interpPkg) {
+			eachInstr(fn, func(_ *ssa.BasicBlock, _ int, ins ssa.Instruction) {
+				for _, op := range ins.Operands(nil) {
+					if g, ok := (*op).(*ssa.Global); ok && g.Name() == "providerMethods" {
+						if _, isStore := ins.(*ssa.Store); isStore {
+							continue
+						}
+						readers = append(readers, fn)
+					}
+				}
+			})
+		}
+		reach := map[*ssa.Function]bool{}
+		var visit func(f *ssa.Function, d int)
+		visit = func(f *ssa.Function, d int) {
+			if f == nil || reach[f] || d > 8 || f.Pkg == nil || f.Pkg.Pkg.Path() != interpPath {
+				return
+			}
+			reach[f] = true
+			for _, a := range f.AnonFuncs {
+				visit(a, d)
+			}
+			eachCall(f, func(cl ssa.CallInstruction) { visit(staticFn(cl), d+1) })
+		}
+		for _, root := range []string{"CallMethod", "HasMethod", "Interpreter.callReceiverMethod", "Interpreter.evaluateFunctionCall", "Interpreter.evaluateFieldAccess"} {
+			visit(c.fn(interpPkg, root), 0)
+		}
+		consulted := false
+		for _, r := range readers {
+			if reach[r] && r.Name() != "init" {
+				consulted = true
+			}
+		}
+		c.ob("C12-R8", interpPkg+".providerMethods#consulted-on-the-dispatch-path", token.NoPos, consulted, "the per-provider allow-lists are declared (and a custom provider can register its own) but nothing on the method-call path reads them: every name allow-listed for some provider is callable on every provider - a custom provider registered with {Lookup} answers flushAll, delete and keys, while its own lookup is refused")
+	}
+
 	// ---- R4 allow-list hygiene
 	c.rule("C12-R4", "TBL/WCS: keys of allowedMethods are pairwise distinct under strings.EqualFold (canonicalMethodName ranges over the map, so a case-duplicate makes resolution nondeterministic); every method name in the built-in providerMethods tables is also in allowedMethods; allowedMethods is written only by its package initialiser (nothing can widen the global allow-list at run time)")
 	allow := allowListKeys(c, "allowedMethods")
